@@ -157,6 +157,43 @@ theorem insert_prefix (c : Cache K V) (k : K) (v : V) :
   unfold insert
   exact evict_prefix sz _ _
 
+/-- eviction is minimal: the loop removes nothing from a cache within its capacity -/
+theorem evict_within (f : Nat) (c : Cache K V) (h : c.size ≤ c.capacity) : evict sz f c = c := by
+  cases f with
+  | zero => rfl
+  | succ f =>
+    unfold evict
+    have : ¬ (c.size > c.capacity) := by omega
+    simp [this]
+
+/-- … and every entry it does remove is removed from a cache that was over its capacity: the
+    result is either the input or `remove_lru` of an over-full intermediate state whose recency
+    list is a prefix of the input's -/
+theorem evict_minimal : ∀ (f : Nat) (c : Cache K V), evict sz f c = c ∨
+    ∃ c' : Cache K V, c'.size > c'.capacity ∧ c'.entries <+: c.entries ∧ evict sz f c = removeLru sz c' := by
+  intro f
+  induction f with
+  | zero => intro c; exact Or.inl rfl
+  | succ f ih =>
+    intro c
+    unfold evict
+    split
+    · rename_i hc
+      have hover : c.size > c.capacity := by
+        simp only [Bool.and_eq_true, decide_eq_true_eq] at hc
+        exact hc.1
+      rcases ih (removeLru sz c) with h | ⟨c', h1, h2, h3⟩
+      · exact Or.inr ⟨c, hover, List.prefix_refl _, h⟩
+      · exact Or.inr ⟨c', h1, h2.trans (removeLru_prefix sz c), h3⟩
+    · exact Or.inl rfl
+
+/-- **C18** an evicting insert that fits evicts nothing -/
+theorem insert_fits (c : Cache K V) (k : K) (v : V)
+    (h : (insertHelper sz c k v).size ≤ (insertHelper sz c k v).capacity) :
+    insert sz c k v = insertHelper sz c k v := by
+  unfold insert
+  exact evict_within sz _ _ h
+
 /-! ## operation sequences and the capacity bound -/
 
 inductive Op (K V : Type) where
